@@ -138,6 +138,9 @@ type c10WF struct {
 	W          string `json:"w"`    // the work-factor argument presented
 	Kind       string `json:"kind"` // how W relates to K
 	ViaDecrypt bool   `json:"viaDecrypt"`
+	// Warm: the same identity value first unwraps the genuine stanza (same
+	// salt and body, canonical factor); earlier successes must not help.
+	Warm bool `json:"warm"`
 }
 
 var (
@@ -173,7 +176,13 @@ func c10CheckWF(c c10WF, st *stats.Run) error {
 	id.SetMaxWorkFactor(c.Max)
 	canonical := c.W == strconv.Itoa(c.K)
 	expectAccept := canonical && c.K >= 1 && c.K <= c.Max
-	st.Case(!expectAccept, stats.HashJSON(c), "C:wf", "C:kind="+c.Kind, fmt.Sprintf("C:expect-accept=%v", expectAccept), fmt.Sprintf("C:via-decrypt=%v", c.ViaDecrypt))
+	if c.Warm && c.K <= c.Max {
+		genuine := &age.Stanza{Type: "scrypt", Args: []string{base.Args[0], strconv.Itoa(c.K)}, Body: base.Body}
+		if k, werr := id.Unwrap([]*age.Stanza{genuine}); werr != nil || !bytes.Equal(k, c10FileKey) {
+			return pbt.Failf("C10/valid-wf-rejected", "genuine stanza (factor %d, maximum %d) rejected: %v", c.K, c.Max, werr)
+		}
+	}
+	st.Case(!expectAccept, stats.HashJSON(c), "C:wf", fmt.Sprintf("C:warm=%v", c.Warm && c.K <= c.Max), "C:kind="+c.Kind, fmt.Sprintf("C:expect-accept=%v", expectAccept), fmt.Sprintf("C:via-decrypt=%v", c.ViaDecrypt))
 	st.Sample("wf/"+c.Kind, c)
 
 	var fk []byte
@@ -295,7 +304,7 @@ func bigMulAdd(dec string, mul, add int) string {
 
 func c10GenWF(t *rapid.T, maxK int) c10WF {
 	m := rapid.IntRange(1, maxK-1).Draw(t, "max")
-	c := c10WF{Max: m, ViaDecrypt: rapid.IntRange(0, 3).Draw(t, "via") == 0}
+	c := c10WF{Max: m, ViaDecrypt: rapid.IntRange(0, 3).Draw(t, "via") == 0, Warm: rapid.Bool().Draw(t, "warm")}
 	switch rapid.IntRange(0, 3).Draw(t, "wfClass") {
 	case 0: // canonical, around the maximum
 		k := rapid.SampledFrom([]int{1, m - 1, m, m + 1, m + 2, m + 6}).Draw(t, "k")
